@@ -52,10 +52,23 @@ def reduce_paramsets_requirements(paramsets_requirements, paramsets_user_configs
                 continue
             if isinstance(v, tuple):
                 v = list(v)
+            # no default and not configured by the user (e.g. the lumi settings)
+            elif v is None:
+                raise exceptions.InvalidModel(
+                    f"{paramset_name} requires the {k} attribute to be configured, but none was given."
+                )
             # this implies user-configured, so check that it has the right number of elements
             elif isinstance(v, list) and default_v and len(v) != len(default_v):
                 raise exceptions.InvalidModel(
                     f'Incorrect number of values ({len(v)}) for {k} were configured by you, expected {len(default_v)}.'
+                )
+            elif (
+                isinstance(v, list)
+                and default_v is None
+                and len(v) != combined_paramset['n_parameters']
+            ):
+                raise exceptions.InvalidModel(
+                    f"Incorrect number of values ({len(v)}) for {k} were configured by you, expected {combined_paramset['n_parameters']}."
                 )
             elif v and default_v == 'undefined':
                 raise exceptions.InvalidModel(
